@@ -20,7 +20,7 @@
    1 iff any object at all is still allocated after the drop
    No proofs in this file. *)
 From Coq Require Import List NArith Arith Bool.
-From DesVerif Require Import Common.Codec CQueue.Model CQueue.Spec Own.Heap Own.Shape Own.Check Own.World.
+From DesVerif Require Import Common.Codec CQueue.Model CQueue.Spec Own.Heap Own.Shape Own.Safe Own.Ops Own.Check Own.World.
 Import ListNotations.
 Open Scope N_scope.
 
@@ -52,7 +52,8 @@ Definition add_module (hold : bool) (w : world) (c : mcfg) : world :=
   let '(s1, ctx, proc, q) := new_module (w_st w) (w_tree w)
                                (match par with Some (_, p) => Some (m_ctx p, m_proc p) | None => None end)
                                depth (N.of_nat i) (elem_ids i (c_npe c)) in
-  let s2 := if hold then st_root (st_root s1 ctx) proc else s1 in
+  (* the ModuleRef returned by `node` is kept by the caller, or dropped at once *)
+  let s2 := if hold then s1 else p_release (p_release s1 ctx) proc in
   let r := {| m_cfg := c; m_ctx := ctx; m_proc := proc; m_queue := q; m_depth := depth; m_rt := None; m_gates := [];
               m_active := true; m_handled := 0; m_nw := None; m_slots := []; m_tasks := []; m_new := []; m_woken := [];
               m_shut := None |} in
@@ -68,7 +69,7 @@ Definition add_gates (hold : bool) (w : world) (i : nat) : world :=
   repeat_n (N.to_nat (c_ngates (m_cfg (getm w i))))
     (fun wa => let m := getm wa i in
                let '(s1, g) := new_gate (w_st wa) (m_ctx m) (m_proc m) in
-               let s2 := if hold then st_root s1 g else s1 in
+               let s2 := if hold then s1 else p_release s1 g in
                let wb := updm (wset_st wa s2) i (fun r => mset_gates r (m_gates r ++ [g])) in
                wset_misc wb (w_order wb) (w_chans wb) ((g, i) :: w_gown wb) (w_eaux wb)
                          (if hold then w_held wb ++ [g] else w_held wb)) w.
@@ -100,7 +101,7 @@ Definition add_inj (w : world) (j : N * N * N) : world :=
       if N.odd kind then
         match m_gates r with
         | g :: _ =>
-            if 2 <=? conn_count (hp (w_st w)) g then w
+            if 2 <=? conn_count (whp w) g then w
             else let '(w1, msg) := fresh_msg w in
                  let '(s1, e) := ev_exit (w_st w1) g None msg in
                  fes_add (wset_eaux (wset_st w1 s1) ((e, 1) :: w_eaux w1)) e t
@@ -147,7 +148,7 @@ Definition dec3 (l : list N) : (N * N * N) * list N :=
 
 (* ---- running ---- *)
 Definition world0 (pin : bool) : world :=
-  let '(s, tree, glob) := new_sim {| hp := []; freed := []; bad := [] |} in
+  let '(s, tree, glob) := new_sim (rs0 pin) in
   {| w_pin := pin; w_st := s; w_fes := sp_new; w_buf := []; w_clock := 0; w_itr := 0; w_mods := []; w_order := [];
      w_chans := []; w_gown := []; w_eaux := []; w_tree := tree; w_glob := glob; w_held := []; w_nmsg := 0; w_ntask := 0;
      w_log := []; w_err := false |}.
@@ -214,7 +215,7 @@ Definition EVENT_FUEL : nat := 4000.
 (* the simulation at its stopping point, and the handles that are then dropped, in drop order:
    the Sim (module tree, globals, the guard's event buffer), the events (with the runtime, or as
    the profiler's `remaining`), the caller's own references *)
-Definition stop_state (pin : bool) (input : list N) : world * list nat * (N * N * N) :=
+Definition stop_world (pin : bool) (input : list N) : world * list nat * (N * N * N) :=
   let stop := hd0 input mod 6 in let l := tl0 input in
   let arg := hd0 l in let l := tl0 l in
   let order := N.odd (hd0 l) in let l := tl0 l in
@@ -244,23 +245,33 @@ Definition stop_state (pin : bool) (input : list N) : world * list nat * (N * N 
   let nrem : N := if res =? 2 then 0 else N.of_nat (length pending) in
   let time : N := if (res =? 2) || (stop =? 0) then 0 else w_clock w in
   let sim_roots := [w_tree w; w_glob w] ++ map fst (w_buf w) in
-  let roots := (if (res =? 1) && order then pending ++ sim_roots else sim_roots ++ pending) ++ w_held w in
-  (w, roots, (res, nrem, time)).
+  let want := (if (res =? 1) && order then pending ++ sim_roots else sim_roots ++ pending) ++ w_held w in
+  (w, want, (res, nrem, time)).
+
+(* the heap at the stopping point and the handles held then -- every handle the primitives have
+   handed out and not taken back -- in the order in which the real program drops them *)
+Definition stop_state (pin : bool) (input : list N) : st * list nat * (N * N * N * list N) :=
+  let '(w, want, info) := stop_world pin input in
+  (r_st (w_st w), reorder (r_roots (w_st w)) want, (info, w_log w)).
 
 Definition alive_users (h : heap) : N := N.of_nat (length (filter (fun ob => user_tag (otag ob) && live ob) h)).
 
-Definition run_gen (pin : bool) (input : list N) : list N :=
-  let '(w, roots, (res, nrem, time)) := stop_state pin input in
-  let ok := goodb pin (w_st w) roots in
-  let s' := release_all (w_st w) roots in
+(* what the model prints about the drop: created and dropped-exactly-once per class, instances
+   dropped otherwise, user values still alive, anything at all still allocated *)
+Definition verdict (s' : st) : list N * list N * N * N * N :=
   let h' := hp s' in
   let created := [count_tag is_proc h'; count_tag is_elem h'; count_tag is_task h'; count_tag is_msg h'] in
   let once := [count_once is_proc s'; count_once is_elem s'; count_once is_task s'; count_once is_msg s'] in
-  let total := count_tag user_tag h' in
-  let notonce := total - (nth 0 once 0 + nth 1 once 0 + nth 2 once 0 + nth 3 once 0) in
-  let rec := [b2n ok; res; nrem; time] ++ created ++ once ++ [notonce; alive_users h'; N.of_nat (length (w_log w) / 4)] ++ w_log w in
+  let notonce := count_tag user_tag h' - (nth 0 once 0 + nth 1 once 0 + nth 2 once 0 + nth 3 once 0) in
+  (created, once, notonce, alive_users h', b2n (existsb live h')).
+
+Definition run_gen (pin : bool) (input : list N) : list N :=
+  let '(s, roots, (res, nrem, time, lg)) := stop_state pin input in
+  let ok := goodb pin s roots in
+  let '(created, once, notonce, alive, grew) := verdict (release_all s roots) in
+  let rec := [b2n ok; res; nrem; time] ++ created ++ once ++ [notonce; alive; N.of_nat (length lg / 4)] ++ lg in
   (* the last number: is anything at all still allocated (the implementation: did the live heap
      grow between two further executions of the same simulation) *)
-  rec ++ rec ++ [b2n (existsb live h')].
+  rec ++ rec ++ [grew].
 
 Definition run (input : list N) : list N := run_gen false input.
